@@ -16,7 +16,7 @@ func init() {
 	fw.Register(&fw.Property{
 		ID:    "C07",
 		Level: "exploration",
-		Rule: "(a) exhaustive per-column table: for each of the 17x17 symbol pairs (a,b) query = a+PAD, target = b+PAD (PAD unambiguous, equal in both), observed through closest -n |T| --table with measure snp and raw, in four case layouts; (b) random pairs of width 4-400 over the full alphabet for snp/raw and mostly-A/C/G/T pairs with all four bases and <25% divergence for tn93, observed through closest -n |T| --table (|Q|x|T| distances per run), through closest -n K --table with K in {1,2,random} and an optional -d at an occurring distance (each listed row's distance is that of its own pair), through plain closest, plus swapped-file runs for symmetry; one case per run uses rows of 1.25-1.4 million columns with a million and more differing (snp, raw, -n |T| and -n 2 tables); " +
+		Rule: "(a) exhaustive per-column table: for each of the 17x17 symbol pairs (a,b) query = a+PAD, target = b+PAD (PAD unambiguous, equal in both), observed through closest -n |T| --table with measure snp and raw, in four case layouts; (b) random pairs of width 4-400 over the full alphabet for snp/raw and mostly-A/C/G/T pairs with all four bases for tn93 (divergence below 25 %, and in a fifth of the cases 30-80 %, where defined distances above 1 occur), observed through closest -n |T| --table (|Q|x|T| distances per run), through closest -n K --table with K in {1,2,random} and an optional -d at an occurring distance (each listed row's distance is that of its own pair), through plain closest, plus swapped-file runs for symmetry; one case per run uses rows of 1.25-1.4 million columns with a million and more differing (snp, raw, -n |T| and -n 2 tables); " +
 			"distinct non-trivial = distinct (measure, symbol pair, layout) cells plus distinct (measure, n, same, P1, P2, Tv) count tuples of random pairs with at least one difference",
 		Assumptions: []string{"pairs whose distance is undefined (no jointly resolved site; tn93 log argument <= 1e-6 or a zero target base frequency) are skipped and counted, their ordering is C06's business",
 			"tn93 is compared with tolerance 1e-9 + 1e-7*|d| (9 printed decimals)"},
@@ -187,6 +187,11 @@ func runC07(c *fw.Ctx, idx int) fw.Result {
 			W = r.Range(40, 400)
 			p = gen.SeqProfile{PAmbig: 0.02, PGap: 0.01, PLower: 0.1}
 			rate = r.Float() * 0.2
+			if r.Chance(0.2) {
+				// very divergent but still defined pairs: eq. 7 is an expected number of substitutions
+				// per site and exceeds 1 well before its logarithms stop being defined
+				rate = 0.3 + r.Float()*0.5
+			}
 		}
 		base = gen.Genome(r, W)
 		for i := 0; i < nq; i++ {
@@ -221,7 +226,8 @@ func runC07(c *fw.Ctx, idx int) fw.Result {
 		return res
 	}
 	if idx%15 == 11 {
-		bigD := idx%2 == 0
+		// (an undefined distance is not within any bound: the bound is only added when every listed distance is defined)
+		bigD := idx%2 == 0 && !strings.Contains(out, "Inf") && !strings.Contains(out, "NaN")
 		binSample(c, &res, idx, "closest", map[string]string{"query.fasta": qText, "target.fasta": tText}, func(p func(string) string) []string {
 			a := []string{"closest", "--query", p("query.fasta"), "--target", p("target.fasta"), "-n", fmt.Sprint(len(ts)), "--table"}
 			if measure != "raw" || idx%4 < 2 {
